@@ -64,6 +64,12 @@ func vDoc(k int) []osm.Object {
 		return []osm.Object{vNode(1, false), vWay(10, false, 1), vRel(100, t(), osm.Member{Type: osm.TypeWay, Ref: 10})}
 	case 4: // node shared between two ways
 		return []osm.Object{vNode(1, false), vWay(10, t(), 1), vWay(11, t(), 1)}
+	case 6: // a node and a way that carry the same number (the ID spaces are separate), both members of one relation
+		ms := []osm.Member{{Type: osm.TypeWay, Ref: 7}, {Type: osm.TypeNode, Ref: 7}}
+		if t() {
+			ms[0], ms[1] = ms[1], ms[0]
+		}
+		return []osm.Object{vNode(7, false), vWay(7, false), vRel(100, true, ms...)}
 	default: // relations referring to each other
 		return []osm.Object{vRel(100, t(), osm.Member{Type: osm.TypeRelation, Ref: 101}), vRel(101, false, osm.Member{Type: osm.TypeRelation, Ref: 100})}
 	}
@@ -179,6 +185,16 @@ func VH_C18_extract_tags() {
 	vReach("end")
 }
 
+// separate ID spaces: a node and a way with the same number
+func VH_C18_extract_shared_ids() {
+	doc := vDoc(6)
+	d := vExtract(doc, KeepTags(vWant))
+	if d != nil {
+		vCheckResult(d, vClosure(doc, vTagged), doc)
+	}
+	vReach("end")
+}
+
 func VH_C18_extract_all() {
 	doc := vDoc(vChoose(3))
 	d := vExtract(doc, KeepAll())
@@ -248,7 +264,7 @@ func vConcreteB(c bool) bool {
 // Filter by tags / keep-all: a subset, closed under references, idempotent;
 // every map iteration order is explored.
 func VH_C18_filter() {
-	doc := vDoc(vChoose(vBound(5, 6)))
+	doc := vDoc([]int{0, 1, 2, 3, 4, 5, 6}[vChoose(7)])
 	d := &Data{Nodes: map[osm.NodeID]*Node{}, Ways: map[osm.WayID]*Way{}, Relations: map[osm.RelationID]*Relation{}}
 	for _, o := range doc {
 		switch t := o.(type) {
